@@ -1,5 +1,6 @@
 //! simctl: deterministic simulation with fault injection for the 8086 emulator CLI.
 #![allow(dead_code)]
+#![recursion_limit = "512"]
 // the real driver sources of /repo's binary crate (must be named `driver` at the crate root)
 #[path = "/repo/src/driver/mod.rs"]
 #[allow(dead_code, unused_imports)]
@@ -10,6 +11,7 @@ mod c19;
 mod case;
 mod diag;
 mod dispatch;
+mod fidelity;
 mod gen;
 mod history;
 mod multi;
